@@ -2664,6 +2664,12 @@ class HCI_GenericStatusReturnParameters(HCI_StatusReturnParameters):
     data: bytes = field(metadata=metadata('*'))
 
 
+# Not the return parameters class of a specific command: declare its fields here
+HCI_GenericStatusReturnParameters.fields = HCI_Object.fields_from_dataclass(
+    HCI_GenericStatusReturnParameters
+)
+
+
 @dataclasses.dataclass
 class HCI_StatusAndAddressReturnParameters(HCI_StatusReturnParameters):
     bd_addr: Address = field(metadata=metadata(Address.parse_address))
